@@ -524,9 +524,22 @@ func (tkn *Tokenizer) Error(err string) {
 	}
 }
 
+// rescanToken is returned by scanToken after it turned a MySQL version comment into a nested
+// tokenizer: Scan starts over instead of calling itself (one stack frame per comment otherwise).
+const rescanToken = -1
+
 // Scan scans the tokenizer for the next token and returns
 // the token type and an optional value.
 func (tkn *Tokenizer) Scan() (int, []byte) {
+	for {
+		typ, val := tkn.scanToken()
+		if typ != rescanToken {
+			return typ, val
+		}
+	}
+}
+
+func (tkn *Tokenizer) scanToken() (int, []byte) {
 	if tkn.specialComment != nil {
 		// Enter specialComment scan mode.
 		// for scanning such kind of comment: /*! MySQL-specific code */
@@ -999,7 +1012,7 @@ func (tkn *Tokenizer) scanMySQLSpecificComment() (int, []byte) {
 	}
 	_, sql := ExtractMysqlComment(buffer.String())
 	tkn.specialComment = NewStringTokenizer(sql)
-	return tkn.Scan()
+	return rescanToken, nil
 }
 
 func (tkn *Tokenizer) consumeNext(buffer *bytes2.Buffer) {
